@@ -157,6 +157,7 @@ std::string run_rc(const Args& a) {
 				if (t[0] == "new") { Counted* c = new Counted(next++); c->freed = &freed; p[i] = detail::IntrusiveSharedPtr<Counted>(c); }
 				else if (t[0] == "as") { unsigned j = (unsigned)std::atoi(t[2].c_str()); if (j < 4) p[j] = p[i]; }
 				else if (t[0] == "rs") p[i].reset();
+				else if (t[0] == "sw") { unsigned j = (unsigned)std::atoi(t[2].c_str()); if (j < 4) p[i].swap(p[j]); }
 				else return "bad-op";
 			}
 			std::string s;
